@@ -1,4 +1,5 @@
 #include "checks.h"
+#include <sys/mman.h>
 #include "oracles.h"
 #include "mon.h"
 #include "specdec.h"
@@ -262,12 +263,28 @@ static RunOutcome check_format(const std::string &prop, const Plan &P) {
 
 // ------------------------------------------------------------------ isolation: evaluate one crash image / altered image in a forked child,
 // so that a crash, sanitizer abort or wall-clock hang inside the library is one more outcome and the enumeration goes on.
-struct IsoOut { Violations v; RunOutcome o; bool died = false; std::string death_cls, death_detail; };
+struct IsoOut { Violations v; RunOutcome o; bool died = false; std::string death_cls, death_detail; int death_op = -1; };
+// A child that dies without a symbolised library frame (e.g. SIGSEGV inside libc's memcpy called by the library) is still the
+// library's doing when it was inside a library call made with valid arguments: name the call instead of giving up ("?" = harness).
+static void attribute_death(IsoOut &iso, const Plan &P) {
+    if (!iso.died || iso.death_cls.size() < 2 || iso.death_cls.compare(iso.death_cls.size() - 2, 2, ":?") != 0 || iso.death_op == -1) return;
+    std::string what;
+    if (iso.death_op == -2) what = "open";
+    else if (iso.death_op >= 2000000 && iso.death_op - 2000000 < (int) P.reads.size()) what = op_names[P.reads[iso.death_op - 2000000].kind];
+    else if (iso.death_op >= 1000000 && iso.death_op - 1000000 < (int) P.reads.size()) what = op_names[P.reads[iso.death_op - 1000000].kind];
+    else if (iso.death_op >= 0 && iso.death_op < (int) P.ops.size()) what = op_names[P.ops[iso.death_op].kind];
+    else return;
+    iso.death_cls = iso.death_cls.substr(0, iso.death_cls.size() - 1) + "@" + what;
+    iso.death_detail += " [no symbolised library frame; the process died inside the library call '" + what + "' (plan op " + std::to_string(iso.death_op) + ")]";
+}
 std::string sanitizer_class_of(const std::string &errpath, const char *fallback, std::string *summary);
 static IsoOut isolate(const std::function<void(Violations &, RunOutcome &)> &fn) {
     IsoOut r;
     if (getenv("JLSSIM_NO_ISOLATE")) { fn(r.v, r.o); return r; }
     int fd[2]; if (pipe(fd)) { perror("pipe"); exit(2); }
+    static volatile int *mirror = nullptr;
+    if (!mirror) { void *pg = mmap(nullptr, 4096, PROT_READ | PROT_WRITE, MAP_SHARED | MAP_ANONYMOUS, -1, 0); if (pg != MAP_FAILED) mirror = (volatile int *) pg; }
+    if (mirror) { *mirror = -1; sim::cur_op_mirror = mirror; }
     fflush(stdout); fflush(stderr);
     char errpath[80]; snprintf(errpath, sizeof errpath, "/verif/build/tmp/iso_err_%d.txt", (int) getpid());
     pid_t pid = fork();
@@ -291,8 +308,9 @@ static IsoOut isolate(const std::function<void(Violations &, RunOutcome &)> &fn)
     while ((n = read(fd[0], tmp, sizeof tmp)) > 0) buf.append(tmp, (size_t) n);
     close(fd[0]);
     int st = 0; waitpid(pid, &st, 0);
+    sim::cur_op_mirror = nullptr;
     if (!(WIFEXITED(st) && WEXITSTATUS(st) == 0)) {
-        r.died = true; std::string summary;
+        r.died = true; std::string summary; if (mirror) r.death_op = *mirror;
         if (WIFSIGNALED(st) && WTERMSIG(st) == SIGALRM) { r.death_cls = "wall_timeout"; r.death_detail = "did not finish within 120 s of wall clock"; }
         else { r.death_cls = sanitizer_class_of(errpath, WIFSIGNALED(st) ? ("signal" + std::to_string(WTERMSIG(st))).c_str() : "report", &summary); r.death_detail = summary; }
     }
@@ -548,6 +566,7 @@ static RunOutcome check_crash(const std::string &prop, const Plan &P, int tier) 
             { std::map<std::string, int> per; for (auto &x : all) per[x.prop + x.cls]++; for (auto &v : iso.v) if (all.size() < 200 && per[v.prop + v.cls]++ < 3) all.push_back(v); }
             for (auto &kv : iso.o.ctr) out.ctr[kv.first] += kv.second;
             out.nontrivial_units += iso.o.nontrivial_units; for (uint64_t u : iso.o.unit_hashes) out.unit_hashes.push_back(u);
+            attribute_death(iso, P);
             if (iso.died) {
                 std::string where0 = fmt("stop after %zu of %zu backend writes%s", k, mut.size(), b ? fmt(" + %zu bytes of the next", b).c_str() : "");
                 int same = 0; for (auto &x : all) if (x.cls == iso.death_cls) ++same;
@@ -713,6 +732,7 @@ static RunOutcome check_corrupt(const std::string &prop, const Plan &P, int tier
                 for (auto &v : iso.v) { if (out.viol.size() < 8) { out.viol.push_back(v); out.viol.back().f_alter = atext0; } }
                 for (auto &kv : iso.o.ctr) out.ctr[kv.first] += kv.second;
                 out.nontrivial_units += iso.o.nontrivial_units; for (uint64_t u : iso.o.unit_hashes) out.unit_hashes.push_back(u);
+                attribute_death(iso, P);
                 if (iso.died && out.viol.size() < 8) { out.viol.push_back(Violation{prop, iso.death_cls, "alteration " + atext0 + ": reading the altered file killed the process: " + iso.death_detail, -1}); out.viol.back().f_alter = atext0; out.ctr["altered_killed_process"]++; }
                 if (out.viol.size() >= 8) break;
             }
